@@ -587,17 +587,8 @@ func (b *BaseStore) Load(ctx context.Context, amount int) error {
 
 			// the log panics when asked to keep more entries than the joined log holds
 			size := amount
-			if size > 0 {
-				merged := oplog.Len()
-				for _, e := range l.GetEntries().Slice() {
-					if _, ok := oplog.Get(e.GetHash()); !ok {
-						merged++
-					}
-				}
-
-				if size > merged {
-					size = -1
-				}
+			if size > 0 && size > oplog.Len()+joinable(oplog, l) {
+				size = -1
 			}
 
 			span.AddEvent("store-heads-joining")
@@ -861,6 +852,45 @@ func (b *BaseStore) LoadFromSnapshot(ctx context.Context) error {
 	}
 
 	return nil
+}
+
+// joinable counts the entries of l that a join into oplog takes in. The join walks l from its
+// heads along next and goes no further wherever it meets an entry oplog already holds (a
+// store that is loaded a second time has the heads already): what lies below such an entry
+// is not taken in, although oplog does not hold it
+func joinable(oplog ipfslog.Log, l ipfslog.Log) int {
+	entries := l.GetEntries()
+
+	stack := []cid.Cid{}
+	for _, h := range l.Heads().Slice() {
+		stack = append(stack, h.GetHash())
+	}
+
+	seen := map[string]struct{}{}
+	count := 0
+	for len(stack) > 0 {
+		hash := stack[len(stack)-1]
+		stack = stack[:len(stack)-1]
+
+		if _, ok := seen[hash.String()]; ok {
+			continue
+		}
+		seen[hash.String()] = struct{}{}
+
+		e, ok := entries.Get(hash.String())
+		if !ok || e.GetLogID() != oplog.GetID() {
+			continue
+		}
+
+		if _, ok := oplog.Get(hash); ok {
+			continue
+		}
+
+		count++
+		stack = append(stack, e.GetNext()...)
+	}
+
+	return count
 }
 
 // ownEntriesOnly returns l itself, or a log made of l's entries without those written for
